@@ -100,6 +100,11 @@ VALID_NODE_TYPES = set(METHOD_NODE_MAPPINGS.values())
 VALID_OPTIONAL_ARGS = (("settings", Settings),)
 
 
+def type_name(ty: Any) -> str:  # type: ignore
+    # Annotations can be anything (strings, unions, lists), not only classes
+    return getattr(ty, "__name__", repr(ty))
+
+
 def type_error_with_line_info(func: Any, msg: str) -> TypeError:  # type: ignore
     filename = getsourcefile(func)
     line = getsourcelines(func)[1]
@@ -136,7 +141,7 @@ def extract_function_types(  # type: ignore
         if (param.name, param.annotation) not in VALID_OPTIONAL_ARGS:
             raise type_error_with_line_info(
                 func,
-                f'"{param.name}: {param.annotation.__name__}" is not a valid service',  # noqa: E501
+                f'"{param.name}: {type_name(param.annotation)}" is not a valid service',  # noqa: E501
             )
 
     match node_param:
@@ -145,18 +150,18 @@ def extract_function_types(  # type: ignore
                 if ty not in VALID_NODE_TYPES:
                     raise type_error_with_line_info(
                         func,
-                        f'"{ty.__name__}" is not a valid Mypy node type',
+                        f'"{type_name(ty)}" is not a valid Mypy node type',
                     )
 
                 yield ty
 
-        case ty if ty in VALID_NODE_TYPES:
+        case type() as ty if ty in VALID_NODE_TYPES:
             yield ty
 
-        case _:
+        case ty:
             raise type_error_with_line_info(
                 func,
-                f'"{ty.__name__}" is not a valid Mypy node type',
+                f'"{type_name(ty)}" is not a valid Mypy node type',
             )
 
 
